@@ -390,6 +390,14 @@ def funcRes (r : Res) (s : Session.Sess) : Session.FuncRes :=
     stateOverride := if r.accepted then some (Session.afterHelo s) else none,
     handoff := if r.accepted then some { sender := s.mailfrom, rcpts := (s.rcpts.filter (·.ok)).map (·.addr) } else none }
 
+/-- the reply the client finally sees for the transaction: the last one written by smtp_data() /
+queue.c, or the one smtploop writes for the return value -/
+def finalReply (r : Res) : Option Nat := (r.replies ++ (Session.errReply r.rc).toList).getLast?
+
+/-- `headerflags` after the header lines `ls` (lines that start with a dot are not looked at) -/
+def hdrFlags (ls : List (List Byte)) : Nat :=
+  ls.foldl (fun f l => if l.head? = some DOT then f else (checkHeaders f l).2) 0
+
 def dataLine : List Byte := [68, 65, 84, 65]     -- "DATA"
 
 /-- the iteration of smtploop that handles the line `DATA`: dispatch over the extracted command
